@@ -86,7 +86,20 @@ b = a*q - y**2 + Conditional(And(Gt(y, 0), Lt(y, 9), Gt(q, -9)), sin(q), cos(q))
 dx_dt = b - a
 dy_dt = a + q*y + t
 """,
+    # the renamed entities (x, p, a) all occur inside the conditions and the values of nested conditionals,
+    # of And / Or and of Mod / floor / abs: printers that post-process the text of such constructs
+    # (e.g. replacing `true` / `false`) see the identifier there
+    """states(x={x0}, y=2.5)
+parameters(p=0.75, q=-1.5)
+a = 1 + Conditional(Gt(x, p), p*x, q) + Mod(x + p, 3) + floor(p) + {abs}(p - x)
+b = 2*a + Conditional(Or(Lt(a, p), Gt(x, a)), a - p, Conditional(Ge(p, x), (x*x + 1)**p, a*x)) + y
+dx_dt = b - p*x
+dy_dt = a + q*y + t
+""",
 ]
+# words of the generated code's own vocabulary; an identifier may contain them as a proper part
+EMBED_TOKENS = ["true", "false", "dt", "t", "states", "parameters", "values", "numpy", "pi", "exp", "abs", "fabs", "pow", "if", "else", "where", "nan", "inf", "math", "fmod", "floor", "and", "or", "not", "double", "const", "jnp", "jax"]
+EMBEDDED = sorted({f(w, tok) for tok in EMBED_TOKENS for w in ("alpha", "k") for f in (lambda w, t: f"{w}_{t}", lambda w, t: f"{t}_{w}", lambda w, t: f"{w}{t}", lambda w, t: f"{t}{w}", lambda w, t: f"{w}_{t}_{w}", lambda w, t: f"is_{t}")})
 
 
 def base_model(draw):
@@ -119,9 +132,11 @@ def strategy(tier):
     @st.composite
     def _s(draw):
         model = base_model(draw)
-        src = draw(st.sampled_from(["static", "static", "harvested", "random", "derived", "derived"]))
+        src = draw(st.sampled_from(["static", "static", "harvested", "random", "derived", "derived", "embedded", "embedded"]))
         if src == "static":
             ident = draw(st.sampled_from(STATIC))
+        elif src == "embedded":
+            ident = draw(st.sampled_from(EMBEDDED))
         elif src == "derived":
             # names derived from the model's own names (derivative and helper names of OTHER entities)
             ident = draw(st.sampled_from(["dy_dt", "dx_dt", "dy_dt_linearized", "dx_dt_linearized", "db_dt", "da_dt", "dq_dt", "y_linearized"]))
@@ -309,7 +324,7 @@ def check_case(case):
     stA, modA, textA = build(mA, backend)
     ctx = {"identifier": ident, "role": role, "backend": backend, "text": textA}
     labs = [f"source:{case['source']}", f"role:{role}", f"backend:{backend}"]
-    nontrivial = case["source"] in ("static", "harvested", "derived")
+    nontrivial = case["source"] in ("static", "harvested", "derived", "embedded")
     if stA == "rejected":
         return {"nontrivial": nontrivial, "labels": labs + ["outcome:rejected-by-gotranx"]}
     if stA == "broken":
